@@ -14,6 +14,11 @@
 (* no primitive is ever misapplied, the result is the std::vector one, and a throwing copy leaves the vector as it    *)
 (* was.  Dev switches known-bad variants on (anti-vacuity): "F09" = the pinned fill order without rollback,            *)
 (* "shiftLeftTrait" = shift_left selected by the wrong trait (seeded change C02).                                      *)
+(* MoveTheorem: for element types whose MOVE operations may throw (the mk-th move constructor / move assignment of     *)
+(* the scenario throws), every scenario still misapplies no primitive and leaks nothing: after unwinding every slot   *)
+(* below the (unchanged) size holds an object (possibly moved-from, which no implementation can avoid), every slot    *)
+(* beyond it and the temporary of emplace are raw.  "F28" = shift_right without its clean-up, "F27" = emplace that     *)
+(* only destroys its temporary when growing throws (both as on the pinned tree).                                       *)
 EXTENDS Integers, Sequences, FiniteSets, SequencesExt
 
 CONSTANTS MaxSz,     \* sizes explored 0..MaxSz
@@ -22,7 +27,15 @@ CONSTANTS MaxSz,     \* sizes explored 0..MaxSz
 
 Raw == [s |-> "raw", v |-> 0]
 Live(v) == [s |-> "live", v |-> v]
-B0(b) == [b |-> b, err |-> FALSE, thrown |-> FALSE]
+B0(b) == [b |-> b, err |-> FALSE, thrown |-> FALSE, mcnt |-> 0, mk |-> 0]     \* mk: which move throws (0: none)
+BM(b, mk) == [B0(b) EXCEPT !.mk = mk]
+\* a move operation that may throw: the mk-th one does (before touching anything), the others are counted
+Moving(S, Do(_)) ==
+  IF S.mk = 0 THEN Do(S)
+  ELSE IF S.mcnt + 1 = S.mk THEN [S EXCEPT !.thrown = TRUE, !.mcnt = @ + 1]
+  ELSE Do([S EXCEPT !.mcnt = @ + 1])
+Then(S, F(_)) == IF S.thrown THEN S ELSE F(S)           \* sequencing: F is skipped when an exception is in flight
+Unwinding(S, F(_)) == [F([S EXCEPT !.thrown = FALSE]) EXCEPT !.thrown = TRUE]   \* a catch block: runs, then rethrows
 Err(S) == [S EXCEPT !.err = TRUE]
 Set(S, i, x) == [S EXCEPT !.b[i] = x]
 InRange(S, i) == i >= 1 /\ i <= Len(S.b)
@@ -32,11 +45,11 @@ Construct(S, i, v) == IF S.thrown THEN S ELSE IF ~InRange(S, i) \/ S.b[i].s # "r
 MoveConstruct(S, d, f) ==
   IF S.thrown THEN S
   ELSE IF ~InRange(S, d) \/ ~InRange(S, f) \/ S.b[d].s # "raw" \/ S.b[f].s # "live" THEN Err(S)
-  ELSE Set(Set(S, d, Live(S.b[f].v)), f, [s |-> "moved", v |-> 0])
+  ELSE Moving(S, LAMBDA T : Set(Set(T, d, Live(T.b[f].v)), f, [s |-> "moved", v |-> 0]))
 MoveAssign(S, d, f) ==
   IF S.thrown THEN S
   ELSE IF ~InRange(S, d) \/ ~InRange(S, f) \/ d = f \/ S.b[d].s = "raw" \/ S.b[f].s # "live" THEN Err(S)
-  ELSE Set(Set(S, d, Live(S.b[f].v)), f, [s |-> "moved", v |-> 0])
+  ELSE Moving(S, LAMBDA T : Set(Set(T, d, Live(T.b[f].v)), f, [s |-> "moved", v |-> 0]))
 CopyAssign(S, d, v) == IF S.thrown THEN S ELSE IF ~InRange(S, d) \/ S.b[d].s = "raw" THEN Err(S) ELSE Set(S, d, Live(v))
 Destroy(S, i) == IF ~InRange(S, i) \/ S.b[i].s = "raw" THEN Err(S) ELSE Set(S, i, Raw)      \* (runs also while unwinding)
 ByteReloc(S, tr, d, f) ==       \* memmove of one element: only for relocatable types, onto raw memory
@@ -49,7 +62,10 @@ Up(a, n) == [i \in 1..n |-> a + i - 1]                 \* a, a+1, ..., a+n-1
 Down(a, n) == [i \in 1..n |-> a + n - i]               \* a+n-1, ..., a
 RelocN(S, tr, f, n, d) ==                              \* uninitialized_relocate_n (memmove semantics: overlap safe)
   FoldLeft(LAMBDA T, i : ByteReloc(T, tr, d + (i - f), i), S, IF d <= f THEN Up(f, n) ELSE Down(f, n))
-UMoveN(S, f, n, d) == FoldLeft(LAMBDA T, i : MoveConstruct(T, d + (i - f), i), S, Up(f, n))     \* uninitialized_move_n
+UMoveN(S, f, n, d) ==                                  \* uninitialized_move_n: destroys what it constructed when a move throws (C15)
+  LET R == FoldLeft(LAMBDA T, i : MoveConstruct(T, d + (i - f), i), S, Up(f, n))
+      made == {j \in d..(d + n - 1) : R.b[j].s = "live" /\ S.b[j].s = "raw"}
+  IN IF R.thrown /\ ~S.thrown THEN FoldLeft(LAMBDA T, j : Destroy(T, j), R, SetToSeq(made)) ELSE R
 MoveBackward(S, f, l, dl) ==                           \* std::move_backward([f,l) -> ends at dl)
   FoldLeft(LAMBDA T, i : MoveAssign(T, dl - (l - i), i), S, Down(f, l - f))
 MoveFwd(S, f, l, d) == FoldLeft(LAMBDA T, i : MoveAssign(T, d + (i - f), i), S, Up(f, l - f))   \* std::move
@@ -64,12 +80,19 @@ UFillN(P, f, n, v, k) ==                               \* std::uninitialized_fil
   IN IF R[1].thrown /\ ~P[1].thrown THEN <<FoldLeft(LAMBDA T, i : Destroy(T, i), R[1], SetToSeq(made)), R[2]>> ELSE R
 
 \* ---- the helpers, both trait variants
+\* (non relocatable variants: the tail is move-constructed into raw memory first; when a later move assignment throws,
+\*  those new objects - which the size does not count yet - are destroyed again: the F28 repair)
 ShiftRight1(S, tr, f, n) ==
   IF tr THEN RelocN(S, tr, f, n, f + 1)
-  ELSE MoveBackward(MoveConstruct(S, f + n, f + n - 1), f, f + n - 1, f + n)
+  ELSE LET T1 == MoveConstruct(S, f + n, f + n - 1)
+           T2 == MoveBackward(T1, f, f + n - 1, f + n)
+       IN IF T2.thrown /\ ~T1.thrown /\ "F28" \notin Dev THEN Unwinding(T2, LAMBDA U : Destroy(U, f + n)) ELSE T2
 ShiftRight(S, tr, f, n, count) ==
   IF tr THEN RelocN(S, tr, f, n, f + count)
-  ELSE IF count < n THEN MoveBackward(UMoveN(S, f + n - count, count, f + n), f, f + n - count, f + n)
+  ELSE IF count < n
+       THEN LET T1 == UMoveN(S, f + n - count, count, f + n)
+                T2 == MoveBackward(T1, f, f + n - count, f + n)
+            IN IF T2.thrown /\ ~T1.thrown /\ "F28" \notin Dev THEN Unwinding(T2, LAMBDA U : DestroyN(U, f + n, count)) ELSE T2
   ELSE UMoveN(S, f, n, f + count)
 UnshiftRight(S, tr, f, n, count) ==                    \* runs while unwinding: exception flag cleared for the primitives
   LET T == [S EXCEPT !.thrown = FALSE]
@@ -89,7 +112,7 @@ ShiftLeft(S, tr, f, n) ==                              \* shift_left: n elements
   IN [U EXCEPT !.thrown = TRUE]
 EraseN(S, tr, f, n, count) ==                          \* erase_n: n elements erased at f, count elements follow
   IF tr THEN RelocN(DestroyN(S, f, n), tr, f + n, count, f)
-  ELSE DestroyN(MoveFwd(S, f + n, f + n + count, f), f + count, n)
+  ELSE Then(MoveFwd(S, f + n, f + n + count, f), LAMBDA T : DestroyN(T, f + count, n))
 
 \* ---- scenarios on a vector of sz elements (values 1..sz) with spare capacity
 Buf(sz, cap) == [i \in 1..cap |-> IF i <= sz THEN Live(i) ELSE Raw]
@@ -133,6 +156,43 @@ AssignFillOK(sz, count, k) ==                          \* assign(count, v) growi
      /\ IF S1.thrown THEN Shape(S1, sz)                                                    \* basic guarantee: size unchanged, nothing leaked
         ELSE Shape(S1, count) /\ Vals(S1, count) = [i \in 1..count |-> 99]
 
+\* ---- element types whose move operations may throw (never trivially relocatable): nothing misapplied, nothing leaked
+NoLeak(S, sz) == \A i \in 1..Len(S.b) : (i <= sz => S.b[i].s # "raw") /\ (i > sz => S.b[i].s = "raw")
+MInsertN(sz, pos, count, mk) ==                        \* insert(begin()+pos, count, v) within capacity
+  LET n == sz - pos
+      f == pos + 1
+      S0 == BM(Buf(sz, sz + count + 1), mk)
+      S1 == IF count = 0 THEN S0
+            ELSE IF n = 0 THEN UFillN(<<S0, 0>>, f, count, 99, 0)[1]
+            ELSE Then(ShiftRight(S0, FALSE, f, n, count), LAMBDA T : FillAfterShift(T, FALSE, f, n, count, 99, 0))
+  IN ~S1.err /\ (IF S1.thrown THEN NoLeak(S1, sz) ELSE Shape(S1, sz + count))
+MInsert1(sz, pos, mk) ==                               \* insert(begin()+pos, v) within capacity
+  LET n == sz - pos
+      f == pos + 1
+      S0 == BM(Buf(sz, sz + 2), mk)
+      S1 == IF n = 0 THEN Construct(S0, f, 99) ELSE Then(ShiftRight1(S0, FALSE, f, n), LAMBDA T : CopyAssign(T, f, 99))
+  IN ~S1.err /\ (IF S1.thrown THEN NoLeak(S1, sz) ELSE Shape(S1, sz + 1))
+MEmplace(sz, pos, mk) ==                               \* emplace(begin()+pos, args) within capacity: emplace_shift
+  LET n == sz - pos                                    \* (the temporary lives in the last slot of the buffer)
+      f == pos + 1
+      tmp == sz + 3
+      S0 == BM(Buf(sz, sz + 3), mk)
+      S1 == IF n = 0 THEN Construct(S0, f, 99)
+            ELSE LET T0 == Construct(S0, tmp, 99)
+                     T1 == ShiftRight1(T0, FALSE, f, n)
+                     T2 == Then(T1, LAMBDA T : Then(MoveAssign(T, f, tmp), LAMBDA U : Destroy(U, tmp)))       \* relocate_after_shift
+                     T3 == IF T2.thrown /\ ~T1.thrown THEN ShiftLeft(T2, FALSE, f + 1, n) ELSE T2               \* inner catch
+                 IN IF T3.thrown /\ ("F27" \notin Dev) THEN Unwinding(T3, LAMBDA U : Destroy(U, tmp)) ELSE T3   \* outer catch (F27 repair)
+  IN ~S1.err /\ (IF S1.thrown THEN NoLeak(S1, sz) ELSE Shape(S1, sz + 1))
+MErase(sz, first, n, mk) ==                            \* erase(begin()+first, begin()+first+n)
+  LET S1 == EraseN(BM(Buf(sz, sz + 1), mk), FALSE, first + 1, n, sz - first - n)
+  IN ~S1.err /\ (IF S1.thrown THEN NoLeak(S1, sz) ELSE Shape(S1, sz - n))
+MoveTheorem ==
+  \A sz \in 0..MaxSz : \A mk \in 1..(MaxSz + MaxCount + 2) :
+    /\ \A pos \in 0..sz : \A count \in 0..MaxCount : MInsertN(sz, pos, count, mk)
+    /\ \A pos \in 0..sz : MInsert1(sz, pos, mk) /\ MEmplace(sz, pos, mk)
+    /\ \A first \in 0..sz : \A n \in 1..(sz - first) : MErase(sz, first, n, mk)
+
 SlotsTheorem ==
   \A tr \in BOOLEAN : \A sz \in 0..MaxSz :
     /\ \A pos \in 0..sz : \A count \in 0..MaxCount : \A k \in 0..count : InsertNOK(tr, sz, pos, count, k)
@@ -145,4 +205,5 @@ Init == dummy = 0
 Next == UNCHANGED dummy
 Spec == Init /\ [][Next]_dummy
 TheoremInv == SlotsTheorem
+MoveInv == MoveTheorem
 =============================================================================
